@@ -57,7 +57,7 @@ STUBS = [
 ]
 
 TIER_DEFAULTS = {
-    "quick": {"timeout": 1200, "mem_gb": 14},
+    "quick": {"timeout": 1800, "mem_gb": 14},
     "thorough": {"timeout": 3000, "mem_gb": 24},
 }
 
@@ -191,9 +191,7 @@ def ensure_cache(log=print):
     try:
         if os.path.exists(os.path.join(dst, ".complete")):
             return dst
-        for old in os.listdir(CACHE_DIR):
-            if old.startswith("kani-target-"):
-                shutil.rmtree(os.path.join(CACHE_DIR, old), ignore_errors=True)
+        # (caches for other lock files are left alone: another run may be copying one)
         log("building cargo-kani dependency cache (%s) ..." % key)
         tmp = os.path.join(SCRATCH_BASE, "regexml-verif-cache-%d" % os.getpid())
         shutil.rmtree(tmp, ignore_errors=True)
@@ -237,6 +235,8 @@ class Result:
         self.log = ""
         self.playback_src = None
         self.replay = None
+        self.max_rss_mb = 0
+        self.playback_all = []
 
     def summary(self):
         d = self.h.as_dict()
@@ -248,6 +248,7 @@ class Result:
             "cover_witnesses": ["%s: %s" % (d_, s) for d_, s in self.covers],
             "solver_time_s": round(self.verif_time, 1),
             "wall_s": round(self.wall, 1),
+            "max_rss_mb": self.max_rss_mb,
         })
         if self.failed:
             d["failed_checks"] = self.failed[:12]
@@ -315,7 +316,7 @@ def run_harness(h, repo_dir, target_dir, tier, logdir, playback=False):
         tmo *= 4
     if h.cbmc_args:
         cmd += ["--cbmc-args"] + h.cbmc_args
-    shell = "ulimit -v %d; exec %s" % (mem, " ".join("'%s'" % c for c in cmd))
+    shell = "ulimit -v %d; exec /usr/bin/time -f 'VERIF-MAXRSS-KB %%M' %s" % (mem, " ".join("'%s'" % c for c in cmd))
     t0 = time.time()
     logp = os.path.join(logdir, h.name + (".playback" if playback else "") + ".log")
     with open(logp, "w") as lf:
@@ -335,6 +336,9 @@ def run_harness(h, repo_dir, target_dir, tier, logdir, playback=False):
     res.wall = time.time() - t0
     out = open(logp, errors="replace").read()
     res.log = logp
+    mr = re.search(r"VERIF-MAXRSS-KB (\d+)", out)
+    if mr:
+        res.max_rss_mb = int(mr.group(1)) // 1024
     if timed_out:
         res.reason = "timeout after %ds" % tmo
         return res
@@ -368,9 +372,19 @@ def run_harness(h, repo_dir, target_dir, tier, logdir, playback=False):
         else:
             res.reason = "no verdict (rc=%s)" % p.returncode
         return res
-    pb = re.search(r"Concrete playback unit test for `[^`]*`:\n```\n(.*?)\n```", out, re.S)
-    if pb:
-        res.playback_src = pb.group(1)
+    # Kani prints one playback test per satisfied cover AND per failed check, and
+    # prints a set of concrete values only once: when a failed assertion's
+    # witness equals a cover's witness only the cover's test appears.  So tests
+    # of failed checks come first, cover tests are kept as further candidates.
+    blocks = re.findall(r"Concrete playback unit test for `[^`]*`:\n```\n(.*?)\n```", out, re.S)
+    cands = []
+    for b in blocks:
+        hm = re.search(r"/// Check for `([^`]*)`: \"(.*)\"", b)
+        cands.append((hm.group(1) if hm else "?", hm.group(2) if hm else "", b))
+    cands.sort(key=lambda c: c[0] == "cover")
+    res.playback_all = cands
+    if cands:
+        res.playback_src = cands[0][2]
     unsat_cover = [d for d, s in res.covers if s != "SATISFIED"]
     if verdict.group(1) == "SUCCESSFUL":
         if res.n_failed:
@@ -402,56 +416,68 @@ def run_harness(h, repo_dir, target_dir, tier, logdir, playback=False):
 # native replay of a counterexample (unit level): cargo kani playback
 # --------------------------------------------------------------------------
 def unit_playback(res, repo_dir):
-    """Append the generated unit test to the scratch harness file and run it
-    natively (dev profile, which is the profile Kani models).  Returns dict(reproduced=bool, ...)."""
-    out = {"kind": "kani-concrete-playback", "reproduced": False}
-    if not res.playback_src:
+    """Append the generated unit tests to the scratch harness file and run them
+    natively, one at a time, until one reproduces (panic or hang)."""
+    out = {"kind": "kani-concrete-playback", "reproduced": False, "tests_tried": 0}
+    cands = [c[2] for c in (res.playback_all or [])][:8]
+    if not cands and res.playback_src:
+        cands = [res.playback_src]
+    if not cands:
         out["note"] = "Kani produced no concrete playback test"
         return out
-    src = res.playback_src
-    m = re.search(r"fn (kani_concrete_playback_\w+)\(", src)
-    if not m:
-        out["note"] = "cannot parse playback test"
-        return out
-    tname = m.group(1)
-    vals = re.findall(r"vec!\[([\d, ]*)\]", src)
-    out["concrete_vals"] = [[int(x) for x in v.split(",") if x.strip()] for v in vals]
     path = os.path.join(repo_dir, "regexml/src/verif_kani.rs")
+    names = []
     with open(path, "a") as f:
-        f.write("\n#[cfg(test)]\nmod verif_playback_%s {\n    use super::*;\n%s\n}\n" % (tname, src))
+        for src in cands:
+            m = re.search(r"fn (kani_concrete_playback_\w+)\(", src)
+            if not m or m.group(1) in names:
+                continue
+            names.append(m.group(1))
+            f.write("\n#[cfg(test)]\nmod verif_playback_%s {\n    use super::*;\n%s\n}\n" % (m.group(1), src))
     env = dict(ENV)
     env["CARGO_TARGET_DIR"] = os.path.join(os.path.dirname(repo_dir), "playback-target")
     cwd = os.path.join(repo_dir, "regexml")
     base = ["cargo", "kani", "playback", "-Z", "concrete-playback"]
     # 1. build the test binary (a filter that matches nothing runs no test)
     b = sh(base + ["--", "verif_no_such_test_zz"], cwd=cwd, env=env)
-    if b.returncode != 0 and "running 0 tests" not in b.stdout:
+    if "running 0 tests" not in b.stdout:
         out["dev"] = "playback build failed: " + b.stdout[-800:]
         return out
-    # 2. run the one test under a watchdog (a hang is a reproduction of an
-    #    unwinding-assertion failure)
+    # 2. run the tests one by one under a watchdog (a hang is the native face
+    #    of an unwinding-assertion failure)
     watchdog = int(os.environ.get("VERIF_PLAYBACK_WATCHDOG", "90"))
-    try:
-        r = subprocess.run(base + ["--", tname], cwd=cwd, env=env, text=True, stdout=subprocess.PIPE,
-                           stderr=subprocess.STDOUT, timeout=watchdog, start_new_session=True)
-        txt, rc = r.stdout, r.returncode
-    except subprocess.TimeoutExpired as e:
-        txt = e.stdout.decode(errors="replace") if isinstance(e.stdout, bytes) else (e.stdout or "")
-        rc = "timeout"
-        sh("pkill -f playback-target/ || true")
-    ran = "running 1 test" in txt
-    failed = "test result: FAILED" in txt or "panicked at" in txt
-    if rc == "timeout":
-        out["dev"] = "hang: native run of the counterexample exceeded the %ds watchdog" % watchdog
-        out["reproduced"] = True
-    elif ran and failed:
-        pm = re.search(r"panicked at ([^\n]*)\n([^\n]*)", txt)
-        out["dev"] = "panic: " + (pm.group(1) + " | " + pm.group(2) if pm else "?")
-        out["reproduced"] = True
-    elif ran:
-        out["dev"] = "test passed natively (counterexample NOT reproduced)"
-    else:
-        out["dev"] = "playback could not run: " + txt[-600:]
+    for k, tname in enumerate(names):
+        src = cands[k]
+        try:
+            r = subprocess.run(base + ["--", tname], cwd=cwd, env=env, text=True, stdout=subprocess.PIPE,
+                               stderr=subprocess.STDOUT, timeout=watchdog, start_new_session=True)
+            txt, rc = r.stdout, r.returncode
+        except subprocess.TimeoutExpired as e:
+            txt = e.stdout.decode(errors="replace") if isinstance(e.stdout, bytes) else (e.stdout or "")
+            rc = "timeout"
+            sh("pkill -f playback-target/ || true")
+        try:
+            open(os.path.join(os.path.dirname(repo_dir), "logs", "%s.native-playback-%d.log" % (res.h.name, k)), "w").write(txt)
+        except OSError:
+            pass
+        out["tests_tried"] = k + 1
+        ran = "running 1 test" in txt
+        failed = "test result: FAILED" in txt or "panicked at" in txt
+        vals = re.findall(r"vec!\[([\d, ]*)\]", src)
+        if rc == "timeout":
+            out["dev"] = "hang: native run of the counterexample exceeded the %ds watchdog" % watchdog
+            out["reproduced"] = True
+        elif ran and failed:
+            pm = re.search(r"panicked at ([^\n]*)\n([^\n]*)", txt)
+            out["dev"] = "panic: " + (pm.group(1) + " | " + pm.group(2) if pm else "?")
+            out["reproduced"] = True
+        elif ran:
+            out["dev"] = "test(s) passed natively (counterexample NOT reproduced)"
+        else:
+            out["dev"] = "playback could not run: " + txt[-600:]
+        if out["reproduced"]:
+            out["concrete_vals"] = [[int(x) for x in v.split(",") if x.strip()] for v in vals]
+            break
     return out
 
 
@@ -577,7 +603,12 @@ def main():
                 if r.status == "fail":
                     # second run, instrumented, to obtain concrete witness values
                     r2 = run_harness(h, repo_dir, tdir, a.tier, logdir, playback=True)
-                    r.playback_src = r2.playback_src
+                    real_desc = [f["description"] for f in r.failed
+                                 if f["class"] in ("assertion", "panic-repo", "unwind-repo")]
+                    # order: tests of the violation candidates, other failed checks, cover witnesses
+                    order = sorted(r2.playback_all, key=lambda c: (c[1] not in real_desc, c[0] == "cover"))
+                    r.playback_all = order
+                    r.playback_src = order[0][2] if order else None
                     r.wall += r2.wall
                 with lock:
                     results.append(r)
